@@ -143,6 +143,9 @@ class ASPath(Attribute):
         Returns:
             ASPath instance
         """
+        # RFC 6793: an AS number above 65535 does not fit the 2 octet form, whatever the caller asked for
+        if not asn4 and any(int(asn) > ASN.MAX_2BYTE for segment in segments for asn in segment):
+            asn4 = True
         packed = cls._pack_segments_raw(tuple(segments), asn4)
         return cls(packed, asn4)
 
